@@ -298,6 +298,7 @@ func (s *Session) EmuRegs() (map[string][]byte, bool) {
 }
 
 type RenderResult struct {
+	N        int   // lines actually granted
 	Shown    []int // line indices printed (first number of every printed line), in order
 	Min, Max int
 	Lines    int
@@ -314,11 +315,18 @@ func countLines(s string) int {
 	return n
 }
 
+// RelMin makes the next render grant "declared minimum + n" lines instead of n lines.
+var RelMin bool
+
 func renderView(v view.View, n int) RenderResult {
 	r := RenderResult{}
 	var err error
 	r.Output, r.Panic = capture(func() {
 		r.Min, r.Max = v.MinLines(), v.MaxLines()
+		if RelMin {
+			n += r.Min
+		}
+		r.N = n
 		err = v.Print(n)
 	})
 	r.Err = err != nil
